@@ -229,8 +229,8 @@ class Ctx:
         os.makedirs(os.path.join(d, "jtmp"), exist_ok=True)
         # TLC unpacks its standard modules into java.io.tmpdir on every run: keep that inside the run dir
         jopts = ["-XX:+UseParallelGC", "-Xss64m", "-Djava.io.tmpdir=" + os.path.join(d, "jtmp")]
-        if heap:
-            jopts.append("-Xmx" + heap)
+        # (the JVM's default maximum heap is a quarter of the RAM: too much when checks run side by side)
+        jopts.append("-Xmx" + (heap or os.environ.get("VERIF_TLC_HEAP", "8g")))
         cmd = ["java"] + jopts + ["-cp", TLA_CP, "tlc2.TLC", "-metadir", os.path.join(d, "meta"),
                                    "-workers", str(workers), "-config", cfg]
         if simulate:
@@ -409,6 +409,11 @@ def main(argv, registry):
     except MachineryError as e:
         print("MACHINERY-ERROR property=%s: %s" % (a.prop, e), file=sys.stderr, flush=True)
         rc = 2
+        if ctx.violations:
+            # violations already established on the real code by an earlier stage stand; the stage that
+            # broke afterwards (often as a consequence of the same defect) is reported above
+            print("[%s] %d violation(s) were reported before a later stage of the check failed" % (a.prop, len(ctx.violations)), flush=True)
+            rc = 1
     except Exception:
         import traceback
         traceback.print_exc()
